@@ -29,7 +29,7 @@ enum Inner {
 
 impl KeyCache {
     /// Key cache to be used in tests.
-    #[cfg(all(test, feature = "server"))]
+    #[cfg(all(any(test, iroh_verif), feature = "server"))]
     pub fn test() -> Self {
         Self(Inner::Disabled)
     }
